@@ -25,14 +25,15 @@ PINS = [("mpz/tdiv_qr.c", None), ("mpz/tdiv_q.c", None), ("mpz/tdiv_r.c", None),
         ("mpz/tdiv_r_ui.c", None), ("mpz/fdiv_r_ui.c", None), ("mpz/cdiv_r_ui.c", None),
         ("mpz/tdiv_qr_ui.c", None), ("mpz/fdiv_qr_ui.c", None), ("mpz/cdiv_qr_ui.c", None),
         ("mpz/mul_2exp.c", None), ("mpz/tdiv_q_2exp.c", None), ("mpz/cfdiv_q_2exp.c", None), ("mpz/tdiv_r_2exp.c", None), ("mpz/cfdiv_r_2exp.c", None),
-        ("mpz/sqrtrem.c", None), ("mpz/gcd.c", None), ("mpz/neg.c", None), ("mpz/abs.c", None), ("mpz/and.c", None), ("mpz/ior.c", None), ("mpz/xor.c", None), ("mpz/com.c", None),
+        ("mpz/sqrtrem.c", None), ("mpz/rootrem.c", None), ("mpz/gcd.c", None), ("mpz/neg.c", None), ("mpz/abs.c", None), ("mpz/and.c", None), ("mpz/ior.c", None), ("mpz/xor.c", None), ("mpz/com.c", None),
         ("mpf/neg.c", None), ("mpf/abs.c", None), ("mpf/add.c", None), ("mpf/sub.c", None), ("mpf/add_ui.c", None),
         ("mpf/sub_ui.c", None), ("mpf/ui_sub.c", None),
         ("mpz/realloc.c", None), ("gmp-impl.h", "MPZ_REALLOC"), ("gmp-impl.h", "MPZ_TMP_INIT"),
         ("mpz/set.c", None), ("mpz/aors.h", None), ("mpz/aors_ui.h", None)]
 TRUSTED = ["hand-written pointer-level model lean/Mpir/Model/AliasMem.lean (tied by the ops alias_* on every index assignment: values, ALLOC and "
            "which blocks moved; source pins on the mpz division wrappers, realloc.c, MPZ_REALLOC, MPZ_TMP_INIT, set.c, aors.h, aors_ui.h)"]
-ASSUMPTIONS = ["mpf: the alias theorems are about the bit-exact model lean/Mpir/Model/Mpf.lean (tied by the C13 ops): they cover the pointer tests the C makes "
+ASSUMPTIONS = ["mpz_rootrem: pointer-level model and ops alias_rootrem only (differential tie of the TMP root / TMP remainder and the copies back); no theorem yet",
+               "mpf: the alias theorems are about the bit-exact model lean/Mpir/Model/Mpf.lean (tied by the C13 ops): they cover the pointer tests the C makes "
                "(r == u, r == v); functions without a pointer test (mul, div, sqrt, floor, ceil, trunc, mul_2exp, div_2exp) are functions of the operand values in "
                "that model, their in-place limb traffic rests on the differential run",
                "pointer-level model: mpn_tdiv_qr / mpn_tdiv_q / mpn_add / mpn_sub are taken at their contract on values (limb-level proofs: C02, C03); "
@@ -222,3 +223,20 @@ def gen_ops(rng, tier, ctx=None):
                 d = rng.choice([1, 2, 3, 7, 1 << 63, (1 << 64) - 1, rng.getrandbits(64) | 1, rng.getrandbits(rng.randrange(1, 65)) | 1])
                 v[u] = rng.choice([1, -1, 0]) * d * _mag(rng, rng.choice([0, 1, 1, 2, 3, big]))
                 yield "alias_divexact_ui %x %x %x %s" % (w, u, d, " ".join(hx(x) for x in v))
+    # mpz_rootrem (model + differential only): root = u, rem = u, perfect powers, power minus one, nth = 1, 2, 3, 5, 64, larger than the bit length
+    for r in range(4):
+        for m in range(4):
+            if r == m: continue
+            for o in range(4):
+                for _ in range(reps):
+                    v = _values(rng, big)
+                    nth = rng.choice([1, 2, 2, 3, 3, 5, 7, 64, 1000])
+                    t = _mag(rng, rng.choice([1, 1, 2]))
+                    k = rng.randrange(5)
+                    if nth <= 7:
+                        if k == 0: v[o] = t ** nth
+                        elif k == 1: v[o] = t ** nth - 1
+                        elif k == 2: v[o] = t ** nth + 1
+                    if nth % 2 == 0 and rng.random() < 0.9: v[o] = abs(v[o])
+                    if rng.random() < 0.02: nth = 0
+                    yield "alias_rootrem %x %x %x %x %s" % (r, m, o, nth, " ".join(hx(x) for x in v))
